@@ -42,6 +42,8 @@ type c32Case struct {
 	Writers [][][]subWrite `json:"writers"` // per writer goroutine: transactions while subscribed
 	After   [][]subWrite   `json:"after"`   // after the subscriptions were cancelled
 	Jitter  []byte         `json:"jitter"`
+	VPad    int            `json:"vpad,omitempty"` // value padding (pushes values into the value log)
+	GC      bool           `json:"gc,omitempty"`   // flush, compact and run value-log GC while subscribed
 }
 
 var subAlpha = []byte{'a', 'b', 0x00, 0xFF}
@@ -121,6 +123,14 @@ func genC32(t *rapid.T) c32Case {
 		c.After = append(c.After, genTxn())
 	}
 	c.Jitter = rapid.SliceOfN(rapid.Byte(), 8, 32).Draw(t, "jitter")
+	c.VPad = rapid.SampledFrom([]int{0, 0, 40, 120}).Draw(t, "vpad")
+	if c.Spec.InMemory {
+		c.VPad = 0
+	}
+	c.GC = !c.Spec.InMemory && rapid.Bool().Draw(t, "gc")
+	if c.GC {
+		c.Spec.ValueLogMaxEntries = 8 // several value log files, so that GC finds a candidate
+	}
 	return c
 }
 
@@ -192,6 +202,9 @@ func runC32(c c32Case, rec *evid.Rec) (core.Result, error) {
 			uniq++
 			v := []byte(fmt.Sprintf("%s-%d", tag, uniq))
 			umu.Unlock()
+			if c.VPad > 0 {
+				v = append(v, bytes.Repeat([]byte{'.'}, c.VPad)...)
+			}
 			k := append([]byte{}, c.Keys[w.Key%len(c.Keys)]...)
 			if int64(len(v)) > c.Spec.ValueThreshold && c.Spec.InMemory {
 				v = v[len(v)-int(c.Spec.ValueThreshold):]
@@ -294,6 +307,24 @@ func runC32(c c32Case, rec *evid.Rec) (core.Result, error) {
 	wg.Wait()
 	if werr != nil {
 		return res, fmt.Errorf("commit: %v", werr)
+	}
+	gcRewrote := false
+	if c.GC {
+		// maintenance while subscribed: a flush, a compaction (discard statistics) and value-log GC,
+		// whose rewrite moves live entries through the write path again. None of this is a write
+		// "committed after the subscription": subscribers must not hear of it.
+		if _, err := dbx.Flush(db); err != nil {
+			return res, err
+		}
+		if err, _ := db.VerifCompact(1, badger.VerifPrio{Level: 0, Score: 2, Adjusted: 2}); err != nil {
+			return res, fmt.Errorf("compaction: %v", err)
+		}
+		for i := 0; i < 4; i++ {
+			if err := db.RunValueLogGC(0.001); err != nil {
+				break
+			}
+			gcRewrote = true
+		}
 	}
 	// versions from the store itself
 	type kv struct {
@@ -413,11 +444,12 @@ func runC32(c c32Case, rec *evid.Rec) (core.Result, error) {
 						found = true
 					}
 				}
-				if !found {
+				if !found && !c.GC {
 					st.mu.Unlock()
 					return res, fmt.Errorf("subscriber %d received a delete of %x at version %d, the store has none at that version", i, x.key, x.version)
 				}
-			} else if v, ok := verOf[kv{string(x.key), string(x.val)}]; !ok || v != x.version {
+			} else if v, ok := verOf[kv{string(x.key), string(x.val)}]; (!ok && !c.GC) || (ok && v != x.version) {
+				// (with the GC phase a compaction may have dropped the version from the store meanwhile)
 				st.mu.Unlock()
 				return res, fmt.Errorf("subscriber %d received %x = %q at version %d, the store has it at version %d (found %v)", i, x.key, x.val, x.version, v, ok)
 			}
@@ -439,7 +471,7 @@ func runC32(c c32Case, rec *evid.Rec) (core.Result, error) {
 		}
 	}
 	for _, w := range all {
-		if !w.del {
+		if !w.del && !c.GC {
 			if _, ok := verOf[kv{string(w.key), string(w.val)}]; !ok {
 				return res, fmt.Errorf("committed write %x=%q is not in the store", w.key, w.val)
 			}
@@ -463,6 +495,7 @@ func runC32(c c32Case, rec *evid.Rec) (core.Result, error) {
 	cls(len(c.Writers) > 1, "concurrent_committers")
 	cls(len(c.Subs) > 1, "several_subscribers")
 	cls(total > 0, "deliveries")
+	cls(gcRewrote, "value_log_gc_rewrote_while_subscribed")
 	res.NonTrivial = total >= 3 && len(all) > total/len(c.Subs)
 	return res, nil
 }
@@ -478,6 +511,6 @@ func descMatches(ms []subMatch) string {
 
 func TestC32_Subscribe(t *testing.T) {
 	core.Run(t, "C32", "subscribe",
-		"rapid-generated scenarios: 1-4 subscribers with 1-3 patterns each (prefixes of pool keys, pool keys extended by one byte, random prefixes over {a,b,0x00,0xFF}; ignore specs like \"1\", \"0-2,4\"), transactions committed before subscribing, 1-4 concurrent committer goroutines (1-15 transactions of 1-4 sets/deletes with user meta and TTLs, unique values) while subscribed, transactions after cancellation; jitter at the commit hooks. Oracle: an independent matcher of the documented pattern semantics decides which committed writes each subscriber must receive; each must arrive exactly once with the key, value, user meta, expiry and the version the store holds, in non-decreasing version order; nothing that matches no pattern, nothing committed before the subscription or after its cancellation; Subscribe returns after cancellation. Non-trivial = >=3 expected deliveries and some writes that must not be delivered.",
+		"rapid-generated scenarios: 1-4 subscribers with 1-3 patterns each (prefixes of pool keys, pool keys extended by one byte, random prefixes over {a,b,0x00,0xFF}; ignore specs like \"1\", \"0-2,4\"), transactions committed before subscribing, 1-4 concurrent committer goroutines (1-15 transactions of 1-4 sets/deletes with user meta and TTLs, unique values) while subscribed, transactions after cancellation; optionally values in the value log and a flush + compaction + value-log GC (rewrite) while subscribed; jitter at the commit hooks. Oracle: an independent matcher of the documented pattern semantics decides which committed writes each subscriber must receive; each must arrive exactly once with the key, value, user meta, expiry and the version the store holds, in non-decreasing version order; nothing that matches no pattern, nothing committed before the subscription or after its cancellation; Subscribe returns after cancellation. Non-trivial = >=3 expected deliveries and some writes that must not be delivered.",
 		genC32, runC32)
 }
